@@ -32,6 +32,15 @@ class Unk:
         return hash(('Unk', self.text))
 
 
+class TruthyUnk(Unk):
+    """an unknown value whose truthiness is known (`x or '.'` is truthy whatever x is)"""
+    __slots__ = ('truthy',)
+
+    def __init__(self, text, truthy: bool):
+        Unk.__init__(self, text)
+        self.truthy = truthy
+
+
 class Hole:
     """a hole of a string template: the (unknown) value formatted into the string, with its format spec"""
     __slots__ = ('value', 'spec')
@@ -256,9 +265,10 @@ class PEval:
                     rest.append(v)
                     continue
                 if is_and and not b:
-                    return v if not rest else False        # falsy whatever the unknown operands are
+                    # falsy whatever the unknown operands are (the value is one of the falsy operands)
+                    return v if not rest else TruthyUnk(' and '.join([self.paren(r) for r in rest] + [show(v)]), False)
                 if not is_and and b:
-                    return v if not rest else True
+                    return v if not rest else TruthyUnk(' or '.join([self.paren(r) for r in rest] + [show(v)]), True)
                 last_known = v
             if not rest:
                 return last_known
@@ -397,6 +407,9 @@ class PEval:
             if not r and isinstance(b, (list, tuple, set, frozenset)) and not all(known(x) for x in b):
                 return None
             return r if isinstance(op, ast.In) else not r
+        if isinstance(op, (ast.Is, ast.IsNot, ast.Eq, ast.NotEq)) and ((a is None and isinstance(b, TruthyUnk) and b.truthy) or
+                                                                        (b is None and isinstance(a, TruthyUnk) and a.truthy)):
+            return isinstance(op, (ast.IsNot, ast.NotEq))          # a truthy value is not None
         if isinstance(a, Unk) or isinstance(b, Unk) or not known(a) or not known(b):
             if isinstance(op, (ast.Is, ast.IsNot)) and (a is None or b is None) and not (isinstance(a, Unk) or isinstance(b, Unk)):
                 r = (a is None) == (b is None)
@@ -426,6 +439,8 @@ class PEval:
         return None
 
     def truth(self, v) -> Optional[bool]:
+        if isinstance(v, TruthyUnk):
+            return v.truthy
         if isinstance(v, Unk):
             return None
         if isinstance(v, (list, tuple, dict, set, frozenset, str)):
@@ -565,7 +580,9 @@ class PEval:
             new = Unk(f"{show(cur)} {type(s.op).__name__} {show(v)}")
             if isinstance(s.op, ast.Add) and (isinstance(cur, Tmpl) or isinstance(v, Tmpl)) and isinstance(cur, (Tmpl, str)) and isinstance(v, (Tmpl, str)):
                 new = Tmpl(Tmpl.of(cur).parts + Tmpl.of(v).parts)
-            if known(cur) and known(v) and isinstance(s.op, ast.Add):
+            if isinstance(s.op, ast.Add) and isinstance(cur, list) and isinstance(v, (list, tuple)) and not isinstance(cur, Unk) and not isinstance(v, Unk):
+                new = cur + list(v)
+            elif known(cur) and known(v) and isinstance(s.op, ast.Add):
                 try:
                     new = cur + v
                 except Exception:
@@ -586,7 +603,9 @@ class PEval:
                         st.env[s.value.func.value.id] = Unk(f"<{s.value.func.value.id} after update>")
                 if isinstance(base, list) and isinstance(s.value.func.value, ast.Name) and len(args) == 1:
                     st.env[s.value.func.value.id] = (base + [args[0]]) if s.value.func.attr == 'append' else \
-                        ((base + list(args[0])) if s.value.func.attr == 'extend' and isinstance(args[0], (list, tuple)) else Unk(show(v)))
+                        ((base + list(args[0])) if s.value.func.attr == 'extend' and isinstance(args[0], (list, tuple)) else
+                         ((base + [SymList('*' + show(args[0]), getattr(args[0], 'elt', None), getattr(args[0], 'src', None), sep='<splice>')])
+                          if s.value.func.attr == 'extend' and isinstance(args[0], Unk) else Unk(show(v))))
             if isinstance(s.value, (ast.Yield, ast.YieldFrom)):
                 st.effects.append(('yield', self.ev(s.value.value, st) if s.value.value is not None else None))
             return [('fall', None, st)]
@@ -668,6 +687,33 @@ class PEval:
         return [Outcome(k, v, s.env, s.effects, s.calls, s.assumed) for k, v, s in res]
 
 
+def _const_value(v):
+    """python value of a module-level constant: a literal, or a literal container whose leaves may be plain names (classes,
+    functions: kept as Unk of their dotted name)"""
+    try:
+        return ast.literal_eval(v)
+    except Exception:
+        pass
+    def rec(n):
+        if isinstance(n, ast.Constant):
+            return n.value
+        if isinstance(n, (ast.Name, ast.Attribute)):
+            return TruthyUnk(ast.unparse(n), True)          # a class / function object
+        if isinstance(n, ast.Dict) and all(k is not None for k in n.keys):
+            return {rec(k): rec(x) for k, x in zip(n.keys, n.values)}
+        if isinstance(n, ast.Tuple):
+            return tuple(rec(x) for x in n.elts)
+        if isinstance(n, ast.List):
+            return [rec(x) for x in n.elts]
+        raise KeyError(ast.unparse(n))
+    if isinstance(v, (ast.Dict, ast.Tuple, ast.List)):
+        try:
+            return rec(v)
+        except TypeError:
+            raise KeyError(ast.unparse(v))
+    raise KeyError(ast.unparse(v))
+
+
 def repo_consts(repo, module):
     """resolver for module-level constants: plain names of `module`, and `<imported module alias>.<NAME>`"""
     def res(e):
@@ -675,10 +721,7 @@ def repo_consts(repo, module):
             v = module.constants.get(e.id)
             if v is None:
                 raise KeyError(e.id)
-            try:
-                return ast.literal_eval(v)
-            except Exception:
-                raise KeyError(e.id)
+            return _const_value(v)
         if isinstance(e, ast.Attribute) and isinstance(e.value, ast.Name):
             tgt = module.imports.get(e.value.id)
             if tgt is not None:
@@ -687,9 +730,6 @@ def repo_consts(repo, module):
                     if t == m.modname or t == 'moPepGen.' + m.modname or t.endswith('.' + m.modname):
                         v = m.constants.get(e.attr)
                         if v is not None:
-                            try:
-                                return ast.literal_eval(v)
-                            except Exception:
-                                raise KeyError(e.attr)
+                            return _const_value(v)
         raise KeyError(ast.unparse(e))
     return res
